@@ -20,7 +20,8 @@ is not unique per call, so a save at such a key must merge: the saved amount mus
 UNBOND (or the write is an update). B4: in `withdraw` the refund accumulation and UNBOND.remove are executed
 together, only for records with now - period >= record time (ordering-domain walk), the BankMsg::Send carries the
 accumulated amount to the same address that prefixes the UNBOND keys, and that address is the caller
-(execute passes info.sender).
+(execute passes info.sender). B2 also covers the two weight helpers: they return and save the record they were
+given. B5: the Unbonding query's start_after cursor is an exclusive lower bound.
 """
 ASSUMPTIONS = [
     "asset::aggregate_assets / deduct_assets add / subtract per-asset amounts (white-whale-std helpers, not re-verified here)",
@@ -295,7 +296,73 @@ def check_withdraw(ctx, model):
 
 def run(ctx):
     model = ctx.model()
+    check_weight_helpers_pass_through(ctx, model)
+    check_unbonding_cursor(ctx, model)
     check_validate_funds(ctx, model)
     check_bond(ctx, model)
     check_unbond(ctx, model)
     check_withdraw(ctx, model)
+
+
+def check_weight_helpers_pass_through(ctx, model):
+    """B2 (helpers): update_local_weight / update_global_weight are handed the record the caller has just modified and
+    must return -- and save -- THAT record (only weight and timestamp refreshed): every successful return value and the
+    saved value originate from the record parameter, never from storage (a stored copy does not contain the caller's
+    pending change of the amount)."""
+    for p, item, ty in (("whale_lair::state::update_local_weight", "whale_lair::state::BOND", "whale_lair::Bond"),
+                        ("whale_lair::state::update_global_weight", "whale_lair::state::GLOBAL", "whale_lair::GlobalIndex")):
+        v = ctx.view(p, "C08-B2")
+        if v is None:
+            continue
+        rec = param_idx(v, ty)
+        if rec is None:
+            ctx.missing("C08-B2", "record parameter (%s) of %s" % (ty, p))
+            continue
+        ret = [o for o in v.origins_of_place({"l": 0, "p": []}) if o.kind != "err"]
+        good = lambda os_: any(o.kind == "param" and o.a == rec and not o.proj for o in os_) and not any(o.kind == "load" for o in os_)
+        ok_ret = good(ret)
+        saves = storage_calls(v, item, ("save",))
+        ok_save = bool(saves)
+        sv = []
+        for b, t in saves:
+            so = v.origins_of_operand(t["args"][-1], at=v.at_term(b))
+            sv.append(sorted(map(repr, so)))
+            ok_save = ok_save and good(so)
+        ctx.ob("C08-B2", "%s|returns-and-saves-the-record-it-was-given" % p, ok_ret and ok_save,
+               "returns %s, saves %s (both must be the record parameter with refreshed fields, nothing loaded from storage)" % (sorted(map(repr, ret)), sv), v.where())
+
+
+def check_unbonding_cursor(ctx, model):
+    """B5: pending unbondings are reported through a paginated query; a record used as `start_after` must not be
+    returned again (it would be counted twice): the lower bound built from the cursor is exclusive (Bound::exclusive, or
+    Bound::ExclusiveRaw of the cursor's successor formed by appending one zero byte), never inclusive."""
+    from ..dataflow import const_of
+    p = "whale_lair::queries::query_unbonding"
+    v = ctx.view(p, "C08-B5")
+    if v is None:
+        return
+    names = [c for _, c, _ in model.callees(p)]
+    for q in [x for x in model.fnsrc if x.startswith(p + "::{closure")]:
+        names += [c for _, c, _ in model.callees(q)]
+    excl = [c for c in names if re.search(r"Bound(<.*>)?::(ExclusiveRaw|exclusive)$", re.sub(r"::<[^>]*>", "", c))]
+    incl = [c for c in names if re.search(r"Bound(<.*>)?::(InclusiveRaw|inclusive|Inclusive)$", re.sub(r"::<[^>]*>", "", c))]
+    for b, i, s_ in v.iter_stmts():
+        if s_["rv"]["r"] == "agg" and s_["rv"].get("adt", "").endswith("Bound"):
+            (excl if "Exclusive" in s_["rv"].get("variant", "") else incl).append(s_["rv"]["variant"])
+    ok = bool(excl) and not incl
+    det = "exclusive constructors: %s; inclusive constructors: %s" % (sorted(set(excl)), sorted(set(incl)))
+    raw = [c for c in excl if "ExclusiveRaw" in c]
+    if ok and raw:
+        # raw cursor: its successor is cursor || k with a constant k; keys are fixed-width big-endian u64, so any single
+        # appended byte sorts after the cursor and before the next key -- but it must be appended (not replace the cursor)
+        helpers = [c for c in names if c in model.fnsrc and c != p and "calc_range" in c]
+        okh = False
+        for hname in helpers:
+            for q in [x for x in model.fnsrc if x.startswith(hname + "::{closure")]:
+                cv = model.view(q)
+                pushes = cv.calls_to(r"^std::vec::Vec::push$")
+                ks = [const_of(cv, t["args"][1], cv.at_term(b)) for b, t in pushes]
+                okh = okh or (len(pushes) == 1 and ks[0] is not None)
+                det += "; successor appends %s" % [str(k) for k in ks]
+        ok = ok and okh
+    ctx.ob("C08-B5", "%s|cursor-is-exclusive" % p, ok, det, v.where())
